@@ -247,6 +247,19 @@ def _check_rxn_q(case, ctx, rxn, sp, drawn):
             pass
     ctx.close('C04.reaction/%s:%s' % (form, q), dim, base * fac, rtol=1e-12, atol=1e-12 * scale * abs(fac) + 1e-290,
               detail='cls=%s unit=%s rev=%s act=%s' % (case['cls'], u, case['rev'], case['act']))
+    # the zero-point option of the electronic energy acts on both forms (a species without a vibrational model has
+    # no zero-point energy to include: documented AttributeError, not asked for)
+    if q == 'E' and form in ('state', 'delta') and all(case['species'][i].get('vib') is not None for i in used):
+        for inc in (True, False):
+            if form == 'state':
+                dim = rxn.get_E_state(state=state, units=arg_u, include_ZPE=inc, **kw)
+                base = rxn.get_EoRT_state(state=state, include_ZPE=inc, **kw)
+            else:
+                dim = rxn.get_delta_E(units=arg_u, rev=case['rev'], act=act, include_ZPE=inc, **kw)
+                base = rxn.get_delta_EoRT(rev=case['rev'], act=act, include_ZPE=inc, **kw)
+            ctx.close('C04.reaction/%s:E:include_ZPE=%s' % (form, inc), dim, base * fac, rtol=1e-12,
+                      atol=1e-12 * scale * abs(fac) + 1e-290, detail='cls=%s unit=%s rev=%s' % (case['cls'], u, case['rev']))
+        ctx.label('E:include_ZPE-both')
 
 
 CLAUSES = [
